@@ -13,8 +13,10 @@ _ESC_CACHE: dict = {}
 _DIGESTS: dict | None = None
 
 
-def function_digest(repo: Repo, func_key: str) -> str | None:
-    """Digest of a function's syntax tree without positions and docstrings (stable under reformatting)."""
+def function_digest(repo: Repo, func_key: str, site_expr: str | None = None) -> str | None:
+    """Digest of what a triaged site depends on inside its function: the backward slice of the names in the site's
+    expression (assignments, loop headers and tests that mention them, transitively), or the whole body when no
+    site is given.  Positions, docstrings and statements outside the slice do not count."""
     import hashlib
 
     rel, qual = func_key.split("::", 1)
@@ -23,12 +25,64 @@ def function_digest(repo: Repo, func_key: str) -> str | None:
     except Exception:  # noqa: BLE001
         return None
     body = [s for s in fn.body if not (isinstance(s, ast.Expr) and isinstance(s.value, ast.Constant) and isinstance(s.value.value, str))]
-    text = ast.dump(ast.Module(body=body, type_ignores=[]), annotate_fields=False, include_attributes=False)
+    if site_expr is None:
+        text = ast.dump(ast.Module(body=body, type_ignores=[]), annotate_fields=False, include_attributes=False)
+        return hashlib.sha256(text.encode()).hexdigest()[:16]
+    try:
+        names = {n.id for n in ast.walk(ast.parse(site_expr, mode="eval")) if isinstance(n, ast.Name)} - {"self", "state"}
+    except SyntaxError:
+        names = set()
+    attrs = {ast.unparse(n) for n in ast.walk(ast.parse(site_expr, mode="eval")) if isinstance(n, ast.Attribute)} if names is not None else set()
+    parts: list[str] = []
+    for _ in range(4):
+        grew = False
+        for n in ast.walk(ast.Module(body=body, type_ignores=[])):
+            tgt_names: set[str] = set()
+            dep: ast.AST | None = None
+            if isinstance(n, (ast.Assign, ast.AnnAssign, ast.AugAssign)):
+                tg = n.targets if isinstance(n, ast.Assign) else [n.target]
+                tgt_names = {x.id for t in tg for x in ast.walk(t) if isinstance(x, ast.Name)} | {ast.unparse(t) for t in tg if isinstance(t, ast.Attribute)}
+                dep = n.value
+            elif isinstance(n, (ast.For, ast.comprehension)):
+                tgt_names = {x.id for x in ast.walk(n.target) if isinstance(x, ast.Name)}
+                dep = n.iter
+            elif isinstance(n, ast.NamedExpr):
+                tgt_names = {n.target.id}
+                dep = n.value
+            if tgt_names & (names | attrs) and dep is not None:
+                new = {x.id for x in ast.walk(dep) if isinstance(x, ast.Name)} - {"self", "state"}
+                if not new <= names:
+                    names |= new
+                    grew = True
+        if not grew:
+            break
+    for n in ast.walk(ast.Module(body=body, type_ignores=[])):
+        keep = False
+        if isinstance(n, (ast.Assign, ast.AnnAssign, ast.AugAssign)):
+            tg = n.targets if isinstance(n, ast.Assign) else [n.target]
+            keep = bool(({x.id for t in tg for x in ast.walk(t) if isinstance(x, ast.Name)} | {ast.unparse(t) for t in tg if isinstance(t, ast.Attribute)}) & (names | attrs))
+            node: ast.AST = n
+        elif isinstance(n, (ast.For, ast.comprehension)):
+            keep = bool({x.id for x in ast.walk(n.target) if isinstance(x, ast.Name)} & names)
+            node = ast.Tuple(elts=[n.target, n.iter], ctx=ast.Load())
+        elif isinstance(n, (ast.If, ast.While, ast.IfExp, ast.Assert)):
+            keep = bool({x.id for x in ast.walk(n.test) if isinstance(x, ast.Name)} & names) or any(ast.unparse(x) in attrs for x in ast.walk(n.test) if isinstance(x, ast.Attribute))
+            node = n.test
+        elif isinstance(n, (ast.Return, ast.Break, ast.Continue)):
+            keep = True  # control flow shapes which definitions reach the site
+            node = ast.Expr(value=ast.Constant(value=type(n).__name__))
+        elif isinstance(n, ast.NamedExpr):
+            keep = n.target.id in names
+            node = n
+        if keep:
+            parts.append(ast.dump(node, annotate_fields=False, include_attributes=False))
+    sig = [a.arg for a in fn.args.args + fn.args.kwonlyargs]
+    text = repr(sig) + "|" + site_expr + "|" + "\n".join(parts)
     return hashlib.sha256(text.encode()).hexdigest()[:16]
 
 
-def triage_trusted(repo: Repo, func_key: str) -> bool:
-    """A SAFE entry is trusted only for the version of the function it was written for (tools/retriage.py)."""
+def triage_trusted(repo: Repo, site_key: str) -> bool:
+    """A SAFE entry is trusted only for the version of the code it was written for (tools/retriage.py)."""
     global _DIGESTS  # noqa: PLW0603
     if _DIGESTS is None:
         import json
@@ -36,8 +90,9 @@ def triage_trusted(repo: Repo, func_key: str) -> bool:
 
         p = Path(__file__).with_name("triage_digests.json")
         _DIGESTS = json.loads(p.read_text()) if p.exists() else {}
-    want = _DIGESTS.get(func_key)
-    return want is not None and want == function_digest(repo, func_key)
+    func, _kind, expr, _exc = (site_key.split("|") + ["", "", ""])[:4]
+    want = _DIGESTS.get(site_key)
+    return want is not None and want == function_digest(repo, func, expr)
 
 
 def escape_engine(repo: Repo) -> Escape:
@@ -165,8 +220,8 @@ def run_entry(check: Check, repo: Repo, entry: str, allowed: set[str], rule: str
             check.oblige(rule, site.func, f"{site.kind} {site.expr}: {exempt_funcs[site.func]}", True)
             continue
         tri = TRIAGE.get(site.key())
-        if tri and tri[0] == "SAFE" and not triage_trusted(repo, site.func):
-            check.defer_error(f"{site.func}: the function has changed since its site `{site.expr}` ({site.exc}) was triaged SAFE (\"{tri[1][:80]}...\"); the reason has to be re-read against the new code (tools/retriage.py)")
+        if tri and tri[0] == "SAFE" and not triage_trusted(repo, site.key()):
+            check.defer_error(f"{site.func}: the code it depends on has changed since the site `{site.expr}` ({site.exc}) was triaged SAFE (\"{tri[1][:80]}...\"); the reason has to be re-read against the new code (tools/retriage.py)")
             continue
         if tri and tri[0] == "SAFE":
             check.oblige(rule, site.func, f"{site.kind} {site.expr}: triaged safe — {tri[1]}", True)
